@@ -174,6 +174,7 @@ fn main() {
                 let subs = subjects::subjects(kind, &tier.pick(vec!["u32"], vec!["u8", "u32", "usize"]));
                 let inp = gen::inputs(kind, tier);
                 generic::c09(&subs, &inp.corpus, tier, &budget, &mut report);
+                generic::c09_finish();
                 report.completed.push(format!("{kind}: {} corpus documents x {} streaming subjects, line gated source, DEV(1..2) x chunk sizes", inp.corpus.len(), subs.len()));
                 sample_docs(&mut report, kind, &inp.corpus);
             }
